@@ -252,6 +252,20 @@ def run(chk):
                     # put the attributes back for the next operation
                     root.req("PUT", "/bklock/" + real, query={"tagging": ""}, body=TAG % (b"x" if real == "x" else b"d"))
                     root.req("PUT", "/bklock/" + real, query={"legal-hold": ""}, body=b"<LegalHold><Status>OFF</Status></LegalHold>")
+        # ---- a version id that names no version of the key deletes nothing (a bucket whose versioning was never configured: the object is
+        # its own and only "null" version)
+        chk.require(root.req("PUT", "/plainbk").status == 200, "c04:setup", "CreateBucket plainbk failed")
+        for how in ("DeleteObject", "DeleteObjects"):
+            for vid_ in ("abc", "01ARZ3NDEKTSV4RRFFQ69G5FAV", "nul", "null/", "Null"):
+                root.req("PUT", "/plainbk/keep", body=b"the only copy")
+                if how == "DeleteObject": r = root.req("DELETE", "/plainbk/keep", query={"versionId": vid_})
+                else: r = root.req("POST", "/plainbk", query={"delete": ""}, body=("<Delete><Object><Key>keep</Key><VersionId>%s</VersionId></Object></Delete>" % vid_).encode())
+                g_ = root.req("GET", "/plainbk/keep")
+                chk.case(("unknown-version-delete", how, vid_), True); chk.traces += 1; chk.count("unknown-version-delete:%s:%d" % (how, r.status))
+                row = {"request": "%s of plainbk/keep with version id %r (the bucket keeps no versions)" % (how, vid_), "status": r.status, "code": r.code, "object_after": g_.status}
+                rows.append(row)
+                if g_.status != 200 or g_.body != b"the only copy":
+                    chk.fail("c04:unknown-version-delete:" + how, "%s of the key 'keep' with the version id %r, which names no version of it, answered %d and removed the object (GET %d)" % (how, vid_, r.status, g_.status), row)
         # ---- a copy source names one key: "x/" is not the file object "x", "d" is not the directory object "d/" (CopyObject and UploadPartCopy)
         rcu = root.req("POST", "/bklock/cp-target", query={"uploads": ""}); cuid_ = rcu.xml().findtext("UploadId") if rcu.status == 200 and rcu.xml() is not None else ""
         for real, other in (("x", "x/"), ("d/", "d")):
